@@ -180,6 +180,8 @@ def check_run(rec, inp):
     sc, agg, msize, tab = O.build_scorer(spec, X, 3)
     name = spec.get("name", "table")
     out, err = O.attempt(lambda: run_seeded_binseg(X, sc, np.inf, m, M, g))
+    if err is not None and O.permitted(err):
+        return [False]
     if err is not None:
         rec.violation(f"run_seeded_binseg:raises:{type(err).__name__}:{name}", f"run_seeded_binseg(n={n}, m={m}, M={M}, g={g}) raised {err!r}", "C07.table.score", inp)
         return [False]
@@ -231,6 +233,8 @@ def check_detector(rec, inp):
         return e is None and len(r[0]) == 0
 
     det, err = O.attempt(lambda: make_detector(inp, sc).fit(Xfit))
+    if err is not None and O.permitted(err):
+        return False, info
     if err is not None:
         if empty_candidates(Xfit.shape[0]):
             rec.violation("make_seeded_intervals:empty",
@@ -244,6 +248,8 @@ def check_detector(rec, inp):
     if not (th >= 0):           # outside the quantifier (tuned on a user-defined score with negative values)
         return False, info
     res, err = O.attempt(lambda: det.predict(X))
+    if err is not None and O.permitted(err):
+        return False, info
     if err is not None:
         rec.violation(f"SeededBinarySegmentation:predict:{type(err).__name__}:{name}", f"predict raised {err!r}", "C07.detector", inp)
         return False, info
@@ -285,15 +291,32 @@ def hyper(n, ms, gs, extra_M=(200,)):
 
 def run(tier="quick", seed=0, repo="/repo"):
     use_repo(repo)
-    from skchange.change_detectors.seeded_binseg import make_seeded_intervals
     rec = O.Rec(target=TARGET)
+    O.reset_hangs()
+    bound = {}
+    try:
+        _enumerate(rec, tier, seed, bound)
+    except O.Abort:
+        bound["text"] = bound.get("text", "") + " [enumeration stopped early: calls into the real code did not terminate]"
+    return rec.result(RULE, bound.get("text", "stopped before the bound was fixed"), exhaustive=False)
+
+
+def _enumerate(rec, tier, seed, bound_out):
+    from skchange.change_detectors.seeded_binseg import make_seeded_intervals
     rng = np.random.default_rng(seed)
     quick = tier == "quick"
     gs = [1.1, 1.5, 2.0] if quick else [1.01, 1.1, 1.25, 1.5, 1.75, 2.0]
     ms = [1, 2, 3] if quick else [1, 2, 3, 4, 5]
+    n_int = 16 if quick else 48
+    n0 = 4 if quick else 5
+    n_sys = 150 if quick else 1500
+    n_run = range(2, 9) if quick else range(2, 13)
+    ns_b = [4, 6, 8] if quick else [4, 5, 6, 7, 8, 9, 10, 12]
+    ns_d = [2, 3, 4, 5, 6, 8] if quick else list(range(2, 13))
+    bound_out["text"] = (f"intervals: n<={n_int}, m in {ms}, M in 2m..n+2 and 200, g in {gs}; greedy kernel: all <=3-subsets of sub-intervals of [0,{n0}] + "
+                         f"{n_sys} random systems (n<=12/24); run: table scores n<={max(n_run)}, built-in n in {ns_b}, p<=2; detector: n in {ns_d}")
 
     # (1) candidate intervals, exhaustive over the box
-    n_int = 16 if quick else 48
     for n in range(2, n_int + 1):
         for m, M, g in hyper(n, ms, gs):
             inp = {"check": "intervals", "n": n, "m": m, "M": M, "g": g}
@@ -301,7 +324,6 @@ def run(tier="quick", seed=0, repo="/repo"):
             rec.case(("int", n, m, M, g), nt, inp if (n, m, g) == (9, 2, 1.5) else None)
 
     # (2) greedy kernel, exhaustive on explicit interval systems over [0,4] (all sub-intervals of length >= 2)
-    n0 = 4 if quick else 5
     subs = [(s, e) for s in range(n0 + 1) for e in range(s + 2, n0 + 1)]
     for K in (1, 2, 3):
         for combo in itertools.combinations(subs, K):
@@ -315,7 +337,6 @@ def run(tier="quick", seed=0, repo="/repo"):
                     for th, nt in zip(ths, check_greedy_kernel(rec, inp)):
                         rec.case(("gk", combo, maxi, perm, th), nt, None)
     # seeded random larger systems: real seeded intervals + arbitrary intervals, distinct scores / ties / zeros
-    n_sys = 150 if quick else 1500
     for it in range(n_sys):
         n = int(rng.integers(4, 13 if quick else 25))
         if it % 2 == 0:
@@ -323,7 +344,7 @@ def run(tier="quick", seed=0, repo="/repo"):
             M = int(rng.integers(2 * m + 1, n + 3))
             starts, ends = make_seeded_intervals(n, 2 * m, M, float(rng.choice(gs)))
             starts, ends = _ints(starts), _ints(ends)
-            if not starts:
+            if not starts or any(e - s < 2 * m for s, e in zip(starts, ends)):      # reported by (1)
                 continue
         else:
             m = 1
@@ -345,7 +366,6 @@ def run(tier="quick", seed=0, repo="/repo"):
             rec.case(("gr", it, th), nt, {"starts": starts, "ends": ends, "maximizers": maxi, "scores": scores, "threshold": th} if it == 0 else None)
 
     # (3) run_seeded_binseg: user-defined table scores (all hyper-parameters) and built-in scores
-    n_run = range(2, 9) if quick else range(2, 13)
     for n in n_run:
         X0 = np.zeros((n, 1))
         for m, M, g in hyper(n, ms, gs, extra_M=()):
@@ -356,7 +376,6 @@ def run(tier="quick", seed=0, repo="/repo"):
                 for i, nt in enumerate(nts):
                     rec.case(("run", "table", style, q, n, m, M, g, i), nt, dict(inp, threshold_index=i) if (n, m, M, j) == (8, 1, 8, 0) and i == 1 else None)
     kinds = ("jump", "two", "none", "bump")
-    ns_b = [4, 6, 8] if quick else [4, 5, 6, 7, 8, 9, 10, 12]
     for n in ns_b:
         for p in (1, 2):
             for name, (_, msize, _) in O.builtin_change_scores(p).items():
@@ -377,7 +396,6 @@ def run(tier="quick", seed=0, repo="/repo"):
                                 rec.case(("run", name, n, p, m, M, g, kind, i), nt, None)
 
     # (4) detector class: fixed scales chosen from the scores, and tuned thresholds
-    ns_d = [2, 3, 4, 5, 6, 8] if quick else list(range(2, 13))
     for n in ns_d:
         for p in ((1,) if quick and n not in (4, 8) else (1, 2)):
             specs = [{"kind": "table", "seed": seed + n, "q": p, "style": "perm"}, {"kind": "table", "seed": seed + n + 1, "q": 1, "style": "signed"}]
@@ -393,7 +411,7 @@ def run(tier="quick", seed=0, repo="/repo"):
                         for g in ([1.5] if quick else [1.1, 1.5, 2.0]):
                             kind = kinds[(n + m + M) % 4]
                             X = O.gen_data(rng, n, p, kind)
-                            if kind == "jump" and n == 2 * m:     # the replay of DESIGN 10-C07: a 100 sigma jump in the only admissible place
+                            if n == 2 * m and spec.get("name") in ("CUSUM", "L2Cost"):     # the replay of DESIGN 10-C07: a 100 sigma jump in the only admissible place
                                 X = np.zeros((n, p))
                                 X[m:] = 100.0
                             base = {"check": "detector", "scorer": spec, "X": X, "m": m, "M": M, "g": g}
@@ -420,9 +438,6 @@ def run(tier="quick", seed=0, repo="/repo"):
                                     d["Xfit"] = O.gen_data(rng, n + 1, p, "none")
                                 nt, _ = check_detector(rec, d)
                                 rec.case(("det", str(spec), n, p, m, M, g, "tuned", level), nt, None)
-    bound = (f"intervals: n<={n_int}, m in {ms}, M in 2m..n+2 and 200, g in {gs}; greedy kernel: all <=3-subsets of sub-intervals of [0,{n0}] + {n_sys} random "
-             f"systems (n<=12/24); run: table scores n<={max(n_run)}, built-in n in {ns_b}, p<=2; detector: n in {ns_d}")
-    return rec.result(RULE, bound, exhaustive=False)
 
 
 def replay(inp, repo="/repo"):
